@@ -308,6 +308,9 @@ func (c *C) attemptConnect(ctx context.Context, lmtp bool, endp config.Endpoint,
 func (c *C) Mail(ctx context.Context, from string, opts smtp.MailOptions) error {
 	defer trace.StartRegion(ctx, "smtpconn/MAIL FROM").End()
 
+	// New transaction, recipients accepted in previous ones are not part of it.
+	c.rcpts = nil
+
 	outOpts := smtp.MailOptions{
 		// Future extensions may add additional fields that should not be
 		// copied blindly. So we copy only fields we know should be handled
@@ -376,6 +379,10 @@ func (c *C) Rcpt(ctx context.Context, to string, opts smtp.RcptOptions) error {
 		// TODO: DSN support
 	}
 
+	// Rcpts should return addresses as passed by the caller, not as sent to
+	// the server.
+	originalTo := to
+
 	// If necessary, the extension flag is enabled in Start.
 	if ok, _ := c.cl.Extension("SMTPUTF8"); !address.IsASCII(to) && !ok {
 		var err error
@@ -397,7 +404,7 @@ func (c *C) Rcpt(ctx context.Context, to string, opts smtp.RcptOptions) error {
 		return c.wrapClientErr(err, c.serverName)
 	}
 
-	c.rcpts = append(c.rcpts, to)
+	c.rcpts = append(c.rcpts, originalTo)
 
 	return nil
 }
